@@ -548,6 +548,19 @@ def main():
     undecided, violations, knowns = [], [], []
     open_known = [x for x in known if x.get("status", "open") == "open"]
     frame_notes = []
+    # source pins: a statement outside every function under contract whose exact shape the contracts assume (e.g. the order
+    # in which the chain listeners are registered).  If the shape is gone the check is undecided.
+    for pin in load_units().get("source_pins", []):
+        if prop not in pin["props"]:
+            continue
+        try:
+            txt = extract.mask(open(os.path.join(extract.REPO, pin["file"]), encoding="utf-8").read(), literals=False)
+        except OSError:
+            txt = ""
+        if re.search(pin["pattern"], txt):
+            frame_notes.append("source pin `%s`: present in %s" % (pin["name"], pin["file"]))
+        else:
+            undecided.append("source pin lost: %s (%s): %s" % (pin["name"], pin["file"], pin["why"]))
     for scan in load_units().get("frame_scans", []):
         if prop not in scan["props"]:
             continue
